@@ -162,6 +162,9 @@ class SymEval(object):
         recv = self.ev(f.value, env, fn)
         m = f.attr
         if m == 'format' and recv[0] == 'const' and isinstance(recv[1], str):
+          conv = _format_to_percent(recv[1], args, kws, fn)
+          if conv is not None:
+            return ('fmt', conv[0]) + conv[1]
           tpl = re.sub(r'\{[^}:]*(?::([^}]*))?\}', lambda mo: '%' + (mo.group(1) or 's'), recv[1])
           return ('fmt', tpl) + args
         d = dotted(f)
@@ -363,6 +366,69 @@ class SymEval(object):
           self.run(callee.body, env2, callee, sink, out, depth + 1, loops)
         return
     # callbacks scheduled for later are recorded by the rules that care (see deferred())
+
+
+def _const_of(t, fn):
+  """value of a term that is a constant, or a class-level constant read through self / cls."""
+  if isinstance(t, tuple) and t[0] == 'const':
+    return t[1]
+  if isinstance(t, tuple) and t[0] == 'attr' and isinstance(t[1], tuple) and t[1][0] == 'param' and fn is not None and \
+     fn.cls is not None and t[1][1] in ('self', 'cls', fn.cls.name):
+    v = fn.cls.attrs.get(t[2])
+    if isinstance(v, ast.Constant):
+      return v.value
+  return None
+
+
+def _format_to_percent(tpl, args, kws, fn):
+  """('%-template', argument terms) equivalent to  tpl.format(*args, **kws): fields in template order, a nested
+  replacement field in a format spec ("{0:.{1}f}") filled in when its argument is a constant; None if not expressible."""
+  import string
+  try:
+    parts = list(string.Formatter().parse(tpl))
+  except ValueError:
+    return None
+  out, used = '', []
+  auto = 0
+  kwmap = {k[1]: k[2] for k in kws}
+
+  def arg_of(field):
+    nonlocal auto
+    if field == '':
+      i = auto
+      auto += 1
+      return args[i] if i < len(args) else None
+    if field.isdigit():
+      return args[int(field)] if int(field) < len(args) else None
+    return kwmap.get(field)
+  for lit, field, spec, conv in parts:
+    out += lit.replace('%', '%%')
+    if field is None:
+      continue
+    if '.' in field or '[' in field:
+      return None
+    a = arg_of(field)
+    if a is None:
+      return None
+    spec = spec or ''
+    if '{' in spec:
+      def fill(mo):
+        v = _const_of(arg_of(mo.group(1)), fn)
+        if v is None:
+          raise KeyError(mo.group(1))
+        return str(v)
+      try:
+        spec = re.sub(r'\{([^{}]*)\}', fill, spec)
+      except KeyError:
+        return None
+    if conv == 'r' and not spec:
+      out += '%r'
+    elif not spec:
+      out += '%s'
+    else:
+      out += '%' + spec
+    used.append(a)
+  return out, tuple(used)
 
 
 def _rooted_in_env(node, env):
